@@ -160,6 +160,34 @@ theorem C18_topn_norm_range {F K : Nat} (active : List Bool) (t : TopTab)
       rw [List.getD_eq_getElem?_getD, ha] at hact
       exact absurd hact hp
 
+/-- **C18, the top-N lists stay sorted.**  Whatever the new densities are, `eval_topn` (re-score every entry,
+`insertion_sort_topn`) leaves a list sorted best-first, `insertion_sort_cb` keeps a sorted list sorted for ANY new
+entry, hence so does `eval_cb`; and in a sorted list no entry scores more than the first.  This discharges the
+`hsorted` hypothesis of `C18_topn_norm_range` for the lists the code actually builds. -/
+theorem C18_topn_sorted (score dens : Nat → Int) (nden : Nat) (l : List TopN) :
+    SortedDesc (evalTopn score l) ∧
+    (∀ e l', SortedDesc l' → SortedDesc (insertCb e l')) ∧
+    SortedDesc (evalCb dens nden (evalTopn score l)) ∧
+    ∀ e ∈ evalCb dens nden (evalTopn score l), e.score ≤ headScore (evalCb dens nden (evalTopn score l)) :=
+  ⟨evalTopn_sorted score l, fun e _ h => insertCb_sorted e h, evalCb_sorted dens nden (evalTopn_sorted score l),
+   head_is_max (evalCb_sorted dens nden (evalTopn_sorted score l))⟩
+
+/-- **C18, a whole PTM frame: evaluation, normalisation.**  Every codebook/stream list is first re-scored and
+extended by the real maintenance code (`eval_topn`, `eval_cb` — densities arbitrary), then
+`ptm_mgau_codebook_norm` runs: the result satisfies `Inv`, i.e. all normalised scores of active codebooks are in
+`[0, MAX_NEG_ASCR]`, with no assumption on the densities. -/
+theorem C18_frame_norm_range {F K : Nat} (active : List Bool) (t : TopTab)
+    (score dens : Nat → Nat → Nat → Int) (nden : Nat)
+    (hshape : ∀ cb, Shape F K
+      ((t.mapIdx fun cb cbt => cbt.mapIdx fun f l => evalCb (dens cb f) nden (evalTopn (score cb f) l)).getD cb [])) :
+    Inv F K active (ptmNorm active
+      (t.mapIdx fun cb cbt => cbt.mapIdx fun f l => evalCb (dens cb f) nden (evalTopn (score cb f) l))) := by
+  apply C18_topn_norm_range active _ hshape
+  intro cbt hcbt l hl
+  obtain ⟨cb, hcb, rfl⟩ := List.mem_mapIdx.1 hcbt
+  obtain ⟨f, hf, rfl⟩ := List.mem_mapIdx.1 hl
+  exact (C18_topn_sorted (score cb f) (dens cb f) nden _).2.2.2
+
 /-- **C18, top-N normalisation: the best density is normalised to zero and nothing overflows.**  The
 normaliser of stream `j` is `WORST_SCORE` (no active codebook — the C code asserts this away) or the
 shifted top-1 density of an active codebook, whose normalised score is then exactly `0`; and for every
@@ -394,6 +422,13 @@ def exMix : Mixw := { cb := none, w := [[[10, 40, 7], [90, 3, 159]]] }
 example :
     (ptmSenoneEval exTab exMix [0, 0, 1] [true, false] (ptmNorm [true, false] exTop) true []).scores = [0, 2, 93] ∧
     (ptmNorm [true, false] exTop) = [[[⟨0, 0⟩, ⟨1, 9⟩]], [[⟨1, -3100000⟩, ⟨0, -3200000⟩]]] := by
+  decide
+
+/-- top-N maintenance on a concrete list: re-scoring reorders, a better codeword pushes the worst out -/
+example :
+    evalTopn (fun cw => [-50, -10, -30].getD cw 0) [⟨0, -5⟩, ⟨1, -7⟩, ⟨2, -9⟩] = [⟨1, -10⟩, ⟨2, -30⟩, ⟨0, -50⟩] ∧
+    evalCb (fun cw => [-50, -10, -30, -20, -99].getD cw 0) 5 [⟨1, -10⟩, ⟨2, -30⟩, ⟨0, -50⟩]
+      = [⟨1, -10⟩, ⟨3, -20⟩, ⟨2, -30⟩] := by
   decide
 
 /-- the fit hypotheses of `C18_senscr_range` for the bundled models: 3 streams, top-4, byte weights -/
